@@ -40,6 +40,8 @@ type Outcome struct {
 type Stats struct {
 	Counters map[string]int64
 	Hashes   map[uint64]struct{} // all runs
+	Seq      []uint64            // fingerprints in run order (determinism self-test), if KeepSeq
+	KeepSeq  bool
 	NTHashes map[uint64]struct{} // non-trivial runs
 	Samples  []any
 	MaxSamp  int
@@ -75,6 +77,9 @@ func (s *Stats) Record(o *Outcome) {
 	s.Counters["runs"]++
 	s.Counters["steps"] += int64(o.Steps)
 	s.Hashes[o.Hash] = struct{}{}
+	if s.KeepSeq {
+		s.Seq = append(s.Seq, o.Hash)
+	}
 	if o.Nontrivial {
 		s.Counters["runs_nontrivial"]++
 		s.NTHashes[o.Hash] = struct{}{}
